@@ -57,6 +57,8 @@ def classify(events, pos):
         return "resume-accepted-after-%s-change" % ev["changed"]
     if d["has_manifest"] and not (ev["how"] == "returned" and ev["ok"]):
         return "%s/manifest-for-incomplete-dump/after-%s" % (ev["kind"], point or "start")
+    if ev["how"] == "returned" and ev["ok"] and not ev.get("manifest_same", True):
+        return "%s/manifest-differs-from-the-uninterrupted-dump/after-%s" % (ev["kind"], point or "none")
     if ev["how"] == "returned" and ev["ok"]:
         return "%s/reported-success-not-equivalent/after-%s" % (ev["kind"], point or "none")
     if ev["kind"] == "resume" and ev["how"] == "returned" and not ev["ok"]:
@@ -96,7 +98,9 @@ def run(ctx):
     rng.shuffle(rest)
     # the same boundary configurations on a source that numbers from 0 (Neo4j does): a committed cursor of 0 is a position
     zero = [dict(c, zero_ids=True) for c in fixed if c["shard"] == 1 or len(c["graphs"]) == 2]
-    chosen = fixed + zero[: (3 if quick else len(zero))] + rest[: (6 if quick else 150)]
+    # ... and with scrubbing on in every run (the manifest then carries dump-wide action counts that a resume has to carry over)
+    scrub = [dict(c, scrub="full") for c in fixed if len(c["graphs"]) == 2 or c["shard"] == 1]
+    chosen = fixed + zero[: (3 if quick else len(zero))] + scrub[: (2 if quick else len(scrub))] + rest[: (6 if quick else 150)]
     for i, c in enumerate(chosen):
         c["codec"] = CODECS[(i + ctx.seed) % 3]
     ctx.cov["configurations_total"] = len(allcfgs)
@@ -150,7 +154,7 @@ def run(ctx):
     validate(ctx, trace, chosen)
     ctx.cov["exhaustive"] = False
     ctx.cov["rule"] = ("TLC enumerates %d configurations (<=2 graphs, <=3 nodes, <=3 relationships, shard/batch 1..%d); %d explored (boundary "
-                       "ones always - also on a source whose first node and relationship have database id 0 -, the rest seed-sampled), codec rotating.  Per configuration: crash (SIGKILL) at every step of the first "
+                       "ones always - also on a source whose first node and relationship have database id 0, and with scrubbing on -, the rest seed-sampled), codec rotating.  A run that reports success must also leave the manifest an uninterrupted dump writes (generation time aside).  Per configuration: crash (SIGKILL) at every step of the first "
                        "run, then resume; a sample (thorough: all pairs for the boundary configurations) of second crashes during the resume; "
                        "a database read error at every fetch; refusal scenarios (changed shard size, one more source node, a stray file).  "
                        "non-trivial = the interrupted run had already published at least one fragment or written a manifest temp"
